@@ -11,10 +11,17 @@ mod engines {
 }
 mod props {
 	pub mod c01;
+	pub mod c02;
+	pub mod c04;
+	pub mod c06;
+	pub mod c10;
+	pub mod c12;
 	pub mod c07;
 }
+mod corpus;
 mod gen;
 mod out;
+mod procs;
 mod util;
 mod xtapi;
 
@@ -36,6 +43,21 @@ fn main() {
 			"C01" => {
 				engines::tomlorder::run(&mut out, &mut rng.fork(), thorough);
 				props::c01::run(&mut out, &mut rng.fork(), thorough);
+			}
+			"C02" => {
+				props::c02::run(&mut out, &mut rng.fork(), thorough);
+			}
+			"C04" => {
+				props::c04::run(&mut out, &mut rng.fork(), thorough);
+			}
+			"C06" => {
+				props::c06::run(&mut out, &mut rng.fork(), thorough);
+			}
+			"C10" => {
+				props::c10::run(&mut out, &mut rng.fork(), thorough);
+			}
+			"C12" => {
+				props::c12::run(&mut out, &mut rng.fork(), thorough);
 			}
 			"C07" => {
 				engines::encoding::run(&mut out, &mut rng.fork(), thorough);
